@@ -40,7 +40,7 @@ def all_rules():
 
 def clients():
     cs = []
-    for acct, inside, ident, host, ok in itertools.product((None, 'oper', 'oper:9', 'user:9'), (True, False), ('joe', '~joe', None), ('m', 'o', None), (True, False, 'timeout')):
+    for acct, inside, ident, host, ok in itertools.product((None, 'oper', 'oper:9', 'user:9'), (True, False), ('joe', '~joe', None), ('m', 'o', None), (True, False, 'timeout', 'text')):      # 'text': the dronecheck service says OK and adds words - still an OK
         claimed = ['claimed'] + (['~tilde', None] if ident == '~joe' else [])      # None: hurried before any U line - there is no client-supplied name to upgrade to
         for cl in claimed:
             cs.append(dict(account=acct, addr='10.1.2.3' if inside else '10.2.2.3', ident=ident, host={'m': 'h.match.example', 'o': 'h.other.example', None: None}[host], ok=ok, claimed=cl))
@@ -67,7 +67,7 @@ def client_events(c, cid=1, serial=1):
     if c['ok'] == 'timeout':
         ev.append(('T', cid))
     else:
-        ev.append(('L', ('-1 X drone.svc %s :OK\n' if c['ok'] else '-1 x drone.svc %s :Server not online\n') % tag))
+        ev.append(('L', ('-1 X drone.svc %s :OK clean (score 0)\n' if c['ok'] == 'text' else '-1 X drone.svc %s :OK\n' if c['ok'] else '-1 x drone.svc %s :Server not online\n') % tag))
     return ev
 
 
@@ -76,7 +76,7 @@ def client_lines(c):
 
 
 def expect(table, c):
-    attrs = dict(account=c['account'], addr=c['addr'], ident=c['ident'], host=c['host'], ok_services={'drone.svc'} if c['ok'] is True else set())
+    attrs = dict(account=c['account'], addr=c['addr'], ident=c['ident'], host=c['host'], ok_services={'drone.svc'} if c['ok'] in (True, 'text') else set())
     if c['account']:
         attrs['ok_services'] = set(attrs['ok_services']) | {'login.svc'}
     cls, trust = proto.class_reference(table, attrs)
